@@ -436,9 +436,12 @@ class Spectrum:
             Wavelength units, as accepted by :func:`Unit`. Default is ``nm``.
 
         """
-        self.value = self.sample(wave, method=method, fill_value=fill_value,
-                                 waveunit=waveunit)
+        # validate the new grid (wave setter) before touching the values, so
+        # that a refused resample leaves the object unchanged
+        value = self.sample(wave, method=method, fill_value=fill_value,
+                            waveunit=waveunit)
         self.wave = wave
+        self.value = value
         self.waveunit = waveunit
 
     def bin(self, wave, interp_method='simps', ends='symmetric', preserve_power=True,
